@@ -17,6 +17,7 @@ RULE = (
     "cdf/pdf/icdf (reference formula with the fixed value), free parameters finite, admissible and moved away from contradicting start values; "
     "fit must not raise for a subset the method supports. Non-trivial = the fixed value differs from the family default and the data contradict "
     "the start values; distinct = (family, subset, method, data source, values)."
+    ' Also: conditional evaluation and seeded sampling with int64 / int32 / list / scalar-int conditioning values; fixed values next to 1, next to the default and next to 0.'
 )
 ASSUMPTIONS = [
     "'supported by the method': MLE supports every proper subset; least squares is implemented only for the exponentiated Weibull with delta fixed "
